@@ -71,7 +71,7 @@ def run_driver(lines, timeout=3600):
     if not lines:
         return []
     data = ('\n'.join(lines) + '\n').encode('latin-1')
-    p = subprocess.run([DRIVER], input=data, stdout=subprocess.PIPE, stderr=subprocess.PIPE,
+    p = subprocess.run([os.environ.get("PY65_DRIVER", DRIVER)], input=data, stdout=subprocess.PIPE, stderr=subprocess.PIPE,
                        timeout=timeout)
     if p.returncode != 0:
         raise RuntimeError('driver failed rc=%s: %s' % (p.returncode, p.stderr.decode()[:2000]))
